@@ -152,8 +152,8 @@ def judge(req, obs):
     hooks = [e for e in obs.get("events", []) if e and e.get("ev") == "hook"]
     fail_ord = set()
     for i, h in enumerate(hooks):
-        if h.get("answer", "ok").startswith("exit:") and h["answer"] != "exit:0":
-            fail_ord.add(i)
+        if h.get("answer", "ok").startswith(("exit:", "signal:")) and h["answer"] != "exit:0":
+            fail_ord.add(i)  # (a hook killed by a signal has not exited with 0 either)
     got_tags = [h.get("tag") for h in hooks]
     pred = predict(m, fail_ord)
     for kp in KEY_POSITIONS:
@@ -349,7 +349,9 @@ def run(ctx):
                 if depth == 0:
                     for cp in o.get("cps", []):
                         if cp["kind"] == "hook":
-                            nxt.append((b, [{"idx": cp["idx"], "kind": "hook", "answer": "exit:1"}]))
+                            # the big list family fails each hook with exit 1; the second family also with exit 255 and a fatal signal
+                            for ans in (("exit:1",) if group is bases else ("exit:1", "exit:255", "signal:9")):
+                                nxt.append((b, [{"idx": cp["idx"], "kind": "hook", "answer": ans}]))
             total_fail_points += len(nxt) if depth == 0 else 0
             frontier = nxt
     bounds["single_hook_failures"] = total_fail_points
